@@ -34,12 +34,24 @@ Section Bridge.
      x_at XV tm xv (xtest_positions fhmin test)).
   Proof. reflexivity. Qed.
 
-  Theorem bridge_step st fhmin i tr s :
-    gen_step XV (y_at tm yv) (x_at XV tm xv) respond cutoff_after metric fhmin i (is_refit st) tr
+  (* with fit_params: the regenerated step hands them to the fit call of EVERY fold (this is the
+     lemma that stops checking when a fit call loses its **fit_params) *)
+  Theorem bridge_step_fp fp st fhmin i tr s :
+    gen_step XV (y_at tm yv) (x_at XV tm xv) respond cutoff_after metric fp fhmin i (is_refit st) tr
              (fst s) (snd s) =
+    fold_step_fp XV tm yv xv respond cutoff_after metric fp st fhmin i tr s.
+  Proof.
+    unfold gen_step, fold_step_fp, row_of, data_call_fp, pred_call. rewrite bridge_split.
+    rewrite y_at_times, y_at_values, y_at_length.
+    destruct ((i =? 0) || is_refit st); reflexivity.
+  Qed.
+
+  Theorem bridge_step st fhmin i tr s :
+    gen_step XV (y_at tm yv) (x_at XV tm xv) respond cutoff_after metric None fhmin i (is_refit st)
+             tr (fst s) (snd s) =
     fold_step XV tm yv xv respond cutoff_after metric st fhmin i tr s.
   Proof.
-    unfold gen_step, fold_step, row_of, data_call, pred_call. rewrite bridge_split.
+    unfold gen_step, fold_step, row_of, data_call, pred_call, fit_call. rewrite bridge_split.
     rewrite y_at_times, y_at_values, y_at_length.
     destruct ((i =? 0) || is_refit st); reflexivity.
   Qed.
@@ -47,8 +59,8 @@ Section Bridge.
   (* the tie that catches a swap of the metric's arguments: whatever the metric, the score stored in
      the row is metric(values of y_test, values of the returned forecast), in this order *)
   Theorem bridge_scoring_order st fhmin i tr s :
-    let '(r, tr') := gen_step XV (y_at tm yv) (x_at XV tm xv) respond cutoff_after metric fhmin i
-                              (is_refit st) tr (fst s) (snd s) in
+    let '(r, tr') := gen_step XV (y_at tm yv) (x_at XV tm xv) respond cutoff_after metric None
+                              fhmin i (is_refit st) tr (fst s) (snd s) in
     r_score r = metric (map yv (snd s)) (map snd (respond tr')) /\
     r_len r = Z.of_nat (length (fst s)) /\ r_cutoff r = cutoff_after tr'.
   Proof.
